@@ -247,6 +247,9 @@ func runC03(rc *RunCtx) {
 			if bits.OnesCount32(nm) > 4 && !rc.Thorough() {
 				nv = 1
 			}
+			if bits.OnesCount32(nm) <= 1 {
+				nv = rc.Pick(12, 24) // singletons get every field-value variant
+			}
 			for v := 0; v < nv; v++ {
 				run(c03Case{mask: nm, module: module, variant: v + int(mask)})
 			}
